@@ -1,14 +1,27 @@
-"""C06 -- extraction records exactly one occurrence per node: the counting block of extract as a block contract
-(the rule that is counted -- labels, linearization, vertical context -- is decided by the bounded stand-in)."""
+"""C06 -- extraction records exactly one occurrence per node: the counting block of extract as a block contract, and
+which rule is counted (contracts/extract_blocks.py): the bare rule and the token map, the shape of the linearization
+(one argument per terminal block), the vertical context.  That the linearization *instantiates* to the yield of the node
+is decided by the bounded stand-in."""
 from contracts.counts import lemma_counts
+from contracts import extract_blocks as xb
 
 VERIFY = []
-TRUSTED = ["the counting block is located by AST pattern in the real source; dict keys are opaque values"]
-ASSUMPTIONS = ["nested dicts are modelled as presence/value maps over opaque keys (pyvc/sym.py VMap)"]
+TRUSTED = ["the blocks of extract are located by AST pattern in the real source; dict keys of the grammar are opaque values",
+           "contracts of trees.children / trees.terminals / trees.dominance (verified under C19) and of "
+           "trees.terminal_blocks / treeanalysis.gap_degree_node (verified under C16) at the call sites; wf_theory"]
+ASSUMPTIONS = ["nested dicts are modelled as presence/value maps over opaque keys (pyvc/sym.py VMap)",
+               "block preconditions: the constituent is a node of a well-formed tree with at least one child and every "
+               "node carries a string label; the linearization block starts from what the label / token-map block "
+               "establishes (its proved postcondition)"]
 
 
 def build(reg):
     pass
 
 
-LEMMAS = {"counts.extract": lemma_counts("trees.grammar.extract", 1)}
+LEMMAS = {"counts.extract": lemma_counts("trees.grammar.extract", 1),
+          "extract.rule_labels": xb.lemma_rule_labels,
+          "extract.distinct_numbers": xb.lemma_distinct_numbers,
+          "extract.tokens_have_places": xb.lemma_tokens_have_places,
+          "extract.lin_blocks": xb.lemma_lin_blocks,
+          "extract.vertical_context": xb.lemma_vertical_context}
